@@ -278,6 +278,29 @@ def run(F, rep):
                           'dependencies are looked up in `%s`, which is filled with the key `%s`: one element stands for the whole collection, so a dependency on any other element finds nothing' % (sub['c'][0]['n'], '`, `'.join(partial)), 'one key per variable')
     if n_d1 < 1:
         raise AnalysisBroken('C20.D1: the lookup of variable dependencies in a local map was not found in analyseModel')
+    rep.rule('C20.D3', 'the dependencies declared for an external variable are recorded (AnalyserInternalVariable::mDependencies) BEFORE the equations are analysed, and the analysis re-points the variable that stands for an equivalence class to the '
+                       'component of the equation that computes it (setVariable in AnalyserInternalEquation::check): wherever those recorded variables are read they are resolved again through internalVariable(...) before being '
+                       'looked up - a stale representative finds no equation, the dependency is dropped and the callback is called before the variable it depends on has been computed')
+    n_d3 = 0
+    for g_ in F.funcs.values():
+        if not g_.file.endswith('/analyser.cpp'):
+            continue
+        for L in g_.walk():
+            if L.get('k') != 'RangeFor':
+                continue
+            rng = role(L, 'range')
+            if not any(m_.get('k') == 'Member' and (m_.get('q') or '') == 'libcellml::AnalyserInternalVariable::mDependencies' for m_ in walk(rng)):
+                continue
+            lv = L['c'][0].get('d')
+            for r_ in walk(role(L, 'body')):
+                if r_.get('k') == 'Ref' and r_.get('d') == lv:
+                    n_d3 += 1
+                    via = any(a_.get('k') == 'Call' and a_.get('fn') == 'internalVariable' for a_ in g_.ancestors(r_))
+                    rep.check(via, 'C20.D3', '%s|%s@%s' % (g_.short.split('::')[-1], render(g_.parent(r_) or r_)[:40], r_.get('l')), g_.where(r_),
+                              '%s uses the recorded dependency `%s` as it is (`%s`): after the analysis the class may be represented by another variable (the one in the component of its equation), so the look-up by this pointer fails' % (
+                                  g_.short, L['c'][0].get('n') or 'dependency', render(g_.parent(r_) or r_)[:60]), 'resolved again through internalVariable()')
+    if n_d3 < 1:
+        raise AnalysisBroken('C20.D3: no read of AnalyserInternalVariable::mDependencies found in analyser.cpp')
     rep.rule('C20.D2', 'AnalyserEquationImpl::cleanUpDependencies removes the empty dependencies of EVERY equation: the erase is unconditional (external equations have no AST, their declared dependencies on constants still have to go, '
                        'otherwise dependencies() hands out null entries and the generator dereferences them)')
     cud = F.fn1('AnalyserEquation::AnalyserEquationImpl::cleanUpDependencies')
@@ -323,4 +346,4 @@ def _borrow_c17(F, rep):
     if not getattr(rep, 'nested', False):
         import core
         import c17
-        c17.run(F, core.Borrowed(rep, only={'C17.O1'}))
+        core.borrow(F, rep, c17, only={'C17.O1'})
